@@ -45,6 +45,9 @@ TFault ==
        IN  \/ f.kind = "truncate" /\ Truncate(f.chunk, f.file, f.k)
            \/ f.kind = "corrupt" /\ f.file = "primary" /\ CorruptPrimary(f.chunk, f.j, f.v)
            \/ f.kind = "corrupt" /\ f.file = "secondary" /\ CorruptSecondary(f.chunk, f.j, f.v)
+           \/ f.kind = "fill" /\ FillRegion(f.chunk, f.file, f.j, f.n, f.v)
+           \/ f.kind = "extend" /\ ExtendFile(f.chunk, f.file, f.n, f.v)
+           \/ f.kind = "dup" /\ DupPrimary(f.chunk, f.j, f.n)
     /\ Agree(files', Rec[l].db)
 
 \* the read itself: the property decides; the design model only comments.
